@@ -10,6 +10,7 @@ ops  (every string percent-encoded by the kit, `%` = empty):
   lookup <name>                                    obs: <kind>:<rate> kf=<fields>
   span <msgp|json|otlp> <key> <env|!> <dataset> <k~s~v,k~i~n,…>
         obs: span tid= root= key= env= ds= memo= missing= late= | event | nothing | nosampler
+  reload <name~kind~rate~f,f;…>                    obs: reloaded 0 | reloaded 1     (rules file rewritten, Reload())
   decide <tid>                                     obs: sel= rate= reason= kf=<all>|<nonroot> get=<f~T~v,…;…> | notrace
         ext samplekey = <key>      (the sampler's key string, not modelled)
 -/
@@ -60,10 +61,11 @@ def parseSampler (s : String) : Option (Str × Sampler) :=
     | _, _ => none
   | _ => none
 
+def parseRules (ss : String) : Rules := if ss == "-" then [] else (ss.splitOn ";").filterMap parseSampler
+
 def parseCfg (args : List String) : Cfg :=
-  let ss := (kv args "samplers").getD "-"
   { pfx := dec ((kv args "prefix").getD "%"), tids := decList ((kv args "tid").getD "-"), pids := decList ((kv args "pid").getD "-"),
-    rules := if ss == "-" then [] else (ss.splitOn ";").filterMap parseSampler }
+    rules := parseRules ((kv args "samplers").getD "-"), validate := (kv args "validate") == some "1" }
 
 def parseEntry (s : String) : Option (Str × Val) :=
   match s.splitOn "~" with
@@ -86,6 +88,7 @@ def parseOp : List String → Option Op
     let data ← parsePayload pl
     pure (.span path (dec k) (if e == "!" then none else some (dec e)) (dec d) data)
   | ["decide", t] => some (.decide (dec t))
+  | ["reload", ss] => some (.reload (parseRules ss))
   | _ => none
 
 /-! ### printing the model's answers exactly as the harness prints the implementation's -/
@@ -125,6 +128,7 @@ def fmtOut : Out → String
   | .span tid root key env ds memo missing late =>
     s!"span tid={enc tid} root={b01 root} key={enc key} env={enc env} ds={enc ds} memo={encList (sortU memo)} missing={encList (sortU missing)} late={b01 late}"
   | .notrace => "notrace"
+  | .reloaded b => "reloaded " ++ b01 b
   | .decision d =>
     let (reason, rate) := reasonOf d.sampler d.hit
     s!"sel={enc d.sel} rate={rate} reason={reason} kf={encList (sortU d.all)}|{encList (sortU d.nonRoot)} get={";".intercalate (d.gets.map fmtGets)}"
@@ -147,9 +151,11 @@ structure SeenSpan where
   root : Bool
   data : List (Str × Val)       -- what the client sent (op input)
   ingest : List Str             -- memo ∪ missing as reported: the fields ingestion selected
+  epoch : Nat                   -- number of reloads the implementation had accepted when the span came in
 
 structure Mon where
-  cfg : Cfg
+  cfg : Cfg                     -- `rules` = the rules of the last reload the implementation reported as accepted
+  reloads : Nat := 0
   traces : List (Str × List SeenSpan) := []
 
 def specName (c : Cfg) (key env ds : Str) : Str :=
@@ -198,7 +204,12 @@ def mon (m : Mon) (op : List String) (_ : List (List String)) (obs : Option Stri
       | some s => s!"{kindStr s.kind}:{s.rate} kf={encList (sortU (samplingFields s))}"
       | none => "none:0 kf=-"
     if o == want then (m, [])
+    else if m.reloads > 0 then
+      (m, [fail "C14:wrong-sampler-for-destination:after-reload"
+             s!"after {m.reloads} reload(s): destination {enc n} ({if named then "own entry" else "no entry, __default__"}) gets {o}, the rules in force give {want}"])
     else (m, [fail s!"C14:lookup:{if named then "named" else "default"}" s!"lookup {enc n} gave {o}, expected {want}"])
+  | some (.reload r), some o =>
+    if o == "reloaded 1" then ({ m with cfg := { m.cfg with rules := r }, reloads := m.reloads + 1 }, []) else (m, [])
   | some (.span path key env ds data), some o =>
     if !o.startsWith "span " then (m, []) else
     let g (k : String) : Str := dec ((obsKV o k).getD "%")
@@ -220,7 +231,7 @@ def mon (m : Mon) (op : List String) (_ : List (List String)) (obs : Option Stri
           if sameSet (memo ++ missing) all then []
           else [fail s!"C14:ingest-fields:{if specLegacyB key then "classic-key" else "env-key"}"
                   s!"ingestion selected fields {encList (sortU (memo ++ missing))}, sampler for {enc (specName c key wantEnv ds)} reads {encList (sortU all)}"]
-    let seen : SeenSpan := { path := pathS, key := g "key", env := g "env", ds := g "ds", root := (obsKV o "root") == some "1", data := data, ingest := memo ++ missing }
+    let seen : SeenSpan := { path := pathS, key := g "key", env := g "env", ds := g "ds", root := (obsKV o "root") == some "1", data := data, ingest := memo ++ missing, epoch := m.reloads }
     let tid := g "tid"
     let late := (obsKV o "late") == some "1"
     let traces := if late then m.traces else
@@ -253,7 +264,7 @@ def mon (m : Mon) (op : List String) (_ : List (List String)) (obs : Option Stri
           | none => []
           | some s =>
             (if samplerMatches s rate reason then []
-             else [fail s!"C14:wrong-sampler:{cls}:{if named then "named" else "default"}"
+             else [fail (if m.reloads > 0 then "C14:wrong-sampler-for-destination:after-reload" else s!"C14:wrong-sampler:{cls}:{if named then "named" else "default"}")
                      s!"trace {enc tid} ({enc sp0.key},{enc sp0.env},{enc sp0.ds}) decided with rate={rate} reason={reason}; configured sampler for {enc name} is {kindStr s.kind}:{s.rate}"]) ++
             (match keyFields (samplingFields s) with
              | some (all, nonRoot) =>
@@ -263,7 +274,7 @@ def mon (m : Mon) (op : List String) (_ : List (List String)) (obs : Option Stri
         -- (2) ingestion selected the fields of the sampler that decides
         let f2 := if !uniform then [] else
           spans.filterMap fun sp =>
-            if sp.path == "otlp" || sameSet sp.ingest kfAll then none
+            if sp.path == "otlp" || sp.epoch != m.reloads || sameSet sp.ingest kfAll then none
             else some (fail "C14:ingest-decide-disagree" s!"trace {enc tid}: ingestion selected {encList (sortU sp.ingest)}, deciding sampler reads {encList (sortU kfAll)}")
         -- (3) every field the deciding sampler reads on a span is available with the value the client sent
         let f3 := (spans.zip gets).flatMap fun (sp, gs) =>
